@@ -681,7 +681,11 @@ func (r *refRun) open(c int, addr string, extra E) *refConnState {
 	r.byAddr[ta.String()] = st
 	r.mu.Unlock()
 	ev := E{"e": "open", "c": c, "addr": B(ta.IP), "as": addr}
-	for _, sec := range r.curScen.Cfg.Secrets {
+	var secs []RSecret
+	if r.curScen != nil {
+		secs = r.curScen.Cfg.Secrets
+	}
+	for _, sec := range secs {
 		if sec.Kind == "dns" {
 			// environment observation: what the resolver of this machine answers for the address (the DNS provider asks the same)
 			names, _ := net.LookupAddr(ta.IP.String())
